@@ -113,7 +113,7 @@ func C10(c *Ctx) {
 	r.Explanation = "(A1) bank movements naming the stream module account and writes/deletes of the stream section are reachable only from the stream MsgServer (and genesis import for the section); " +
 		"(A3) pairing with one origin: top-up sends NewCoins(d) from the sender to the module before storing Deposit := Deposit.Add(d) on every success path; a claim pays the fee collector and the receiver the two results of the fee-split function applied to the claim total, stores Deposit := the remaining-deposit result of the claim-amount function applied to the stored deposit, the payouts being skipped only on amount == 0; cancel settles first, refunds the reloaded remaining deposit to the sender and deletes the stream on every success path; " +
 		"(affine split) both pure split functions return, on every return edge, two coins whose sum is syntactically the input (X−Y with Y, or X with a zero coin); (A5/A2) the stream account is a blocked recipient and stream creation rejects blocked receivers; genesis import returns only when balances equal Σ deposits; (A8) no bank error is dropped. Σ-over-streams and rounding are not decided."
-	r.Rules = []string{"A1.escrow-moves", "A1.stream-writers", "A3.topup-pairing", "A3.claim-pairing", "A3.cancel-pairing", "AFF.split", "A5.blocked-addresses", "A2.blocked-receiver", "A3.no-stale-writeback", "A2.genesis-balance", "A8.bank-errors", "A3.lost-update", "A3.stale-element-pointer", "A3.element-carry", "A7.fee-formula", "A7.export-complete"}
+	r.Rules = []string{"A1.escrow-moves", "A1.stream-writers", "A3.topup-pairing", "A3.claim-pairing", "A3.cancel-pairing", "AFF.split", "A5.blocked-addresses", "A2.blocked-receiver", "A3.no-stale-writeback", "A2.genesis-balance", "A8.bank-errors", "A3.lost-update", "A3.stale-element-pointer", "A3.element-carry", "A7.fee-formula", "A7.export-complete", "A6.no-params-cache"}
 	lostUpdateControl(c)
 	r.Floor("functions of stream scanned for dropped updates to record copies", lostUpdates(c, "stream"), 15)
 	r.Trusted = []string{"bank transfers move exactly the given coins or fail", "bank refuses transfers to blocked addresses", "sdk.Coin Add/Sub arithmetic"}
@@ -139,6 +139,8 @@ func C10(c *Ctx) {
 	blockedAddresses(c, []string{"stream"})
 	// escrow equals the sum of deposits across a restart: the export lists every stream whose deposit the escrow still holds
 	exportComplete(c, "stream")
+	// the fee rate applied is the stored parameter (no copy of the params kept by a keeper)
+	noParamsCache(c)
 	// create rejects blocked receivers
 	if h := handlerOf(c, "stream", "CreateStream"); h != nil {
 		for i, s := range mutatingSites(c, h, isStateMutation) {
@@ -786,10 +788,13 @@ func C11(c *Ctx) {
 	r.Explanation = "(A3, guarded ordering) whenever the stored deposit is positive, the settlement claim precedes: the store of a new FlowRate, the refund on cancel, and — for an expired stream — the deposit transfer of a top-up; LastOutflowTime is written only by the claim step and at creation, both with the block time (A4); " +
 		"(A2) stream creation is guarded by not(duration < 60) in the handler and in ValidateBasic, with duration computed from the message's deposit and flow rate; " +
 		"(A9, sink-scoped hazard inventory) in every stream function reachable from the stream MsgServer: no floating-point operation or conversion; every int64*int64 and Duration*Duration product and every int64→uint64 conversion of a computed value is an obligation that must be range-guarded. The payout formula itself is numeric and not decided."
-	r.Rules = []string{"A3.settle-before-change", "A3.restart-resets-outflow", "A7.floor-division", "A4.last-outflow-writers", "A2.min-duration", "A7.stream-fields", "A7.elapsed-seconds", "A9.float", "A9.int-mul", "A9.duration-mul", "A9.narrowing"}
+	r.Rules = []string{"A3.settle-before-change", "A3.restart-resets-outflow", "A7.floor-division", "A4.last-outflow-writers", "A2.min-duration", "A7.stream-fields", "A7.elapsed-seconds", "A9.float", "A9.int-mul", "A9.duration-mul", "A9.narrowing", "A1.stream-writers"}
 	r.Trusted = []string{"time.Time arithmetic", "sdk.Int arbitrary precision"}
 	r.NotDecided = []string{"min(remaining, rate x seconds) payout formula", "deposit-zero-time formula", "sufficiency of the remaining deposit until the advertised time"}
 
+	// the schedule is what the stream handlers store: nobody else writes or deletes a stream
+	whoMayReach(c, "A1.stream-writers", "writes of the stream section", func(e ir.Effect) bool { return e.Kind == "StoreWrite" && e.Section == secStreams }, []string{"MSG:stream", "INITGEN:stream"})
+	whoMayReach(c, "A1.stream-writers", "deletes of the stream section", func(e ir.Effect) bool { return e.Kind == "StoreDelete" && e.Section == secStreams }, []string{"MSG:stream.CancelStream"})
 	noDeposit := func(f *ssa.Function) map[[2]int]bool {
 		return w.EstablishedEdges(f, func(pr ir.Pred) bool {
 			q := pr
@@ -1471,7 +1476,7 @@ var streamPanicReviewed = map[string]string{
 func C12(c *Ctx) {
 	w, r := c.W, c.R
 	r.Explanation = "(A10) panic-source inventory over every stream function reachable from the stream MsgServer and the stream messages' ValidateBasic: every explicit panic and every call of a panicking SDK API (TruncateInt64/Int64/Uint64, Coin.Sub/Add, NewCoin(s), NewDecCoinFromCoin, Quo*, ...) is enumerated from the resolved program; each site must either be guarded by the recognised dominating predicate (flow rate > 0 before division, deposit > claim before Sub, same denomination before Add, amount > 0 before NewCoins) or appear in the reviewed table keyed by function, API and ordinal with its reason; any other site — e.g. a newly added Int64() on a deposit-derived value — is a violation. Decides absence of unreviewed arithmetic panic sources, not liveness."
-	r.Rules = []string{"A10.panic-api", "A10.explicit-panic", "A2.panic-guard", "A10.implicit-panic", "A3.cancel-pairing", "A5.blocked-addresses", "A2.no-duration-refusal", "A4.immutable-fields"}
+	r.Rules = []string{"A10.panic-api", "A10.explicit-panic", "A2.panic-guard", "A10.implicit-panic", "A3.cancel-pairing", "A5.blocked-addresses", "A2.no-duration-refusal", "A4.immutable-fields", "A3.topup-pairing", "A3.claim-pairing", "A3.no-stale-writeback"}
 	// a cancel returns the unreleased remainder: every successful cancel refunds the stored remaining deposit (after the
 	// settlement) and only then deletes the stream
 	cancelPairing(c)
@@ -1483,6 +1488,11 @@ func C12(c *Ctx) {
 	noDurationRefusal(c)
 	// "a cancel by the sender succeeds": the flag that allows it is never lost on the way
 	streamKeepsCancellable(c)
+	// ... and each operation does what it reports: the pairing rules of C10 (a top-up credits what it took, a claim pays what
+	// it releases, no stale record is written back over a settlement)
+	topUpPairing(c)
+	claimPairing(c)
+	staleWriteback(c, "A3.no-stale-writeback", moduleFuncs(c, "stream"), secStreams, "stream")
 	r.Trusted = []string{"reasons recorded in the reviewed table (rate within [0,1] is C16's obligation)", "SDK arithmetic panics only as documented"}
 	r.NotDecided = []string{"that claim/cancel/top-up succeed (liveness)", "bank-side failures"}
 	scope := streamScope(c)
